@@ -163,7 +163,7 @@ CLAIMS = {
         text="19 theorems: a trace accepted by the monitor cannot change any argument storage for ANY written contents "
              "(induction over traces of any length), rejection is never spurious, accepted iff no execution changes an argument; "
              "with-argument accessors of Grid/Cube/Image(Batch) are pure, deepcopy is independent in both directions; for "
-             "transforms the model predicts exactly which receiver slots an accessor changes (six defects repaired by fix: commits; the two remaining refuted clauses - composite children shared with a shallow copy - are known findings). "
+             "transforms the model predicts exactly which receiver slots an accessor changes (C15_transform_accessors_pure: every leaf and composite accessor leaves every node of the receiver's graph unchanged; all nine defects found were repaired by fix: commits, no C15 finding is open). "
              "Every public name of core.functional (113) and losses.functional (40) is traced on enumerated call paths "
              "(1413 paths); the proof is per enumerated path, not about all paths of the Python source (partial).",
         ref="5 C15"),
